@@ -2,6 +2,7 @@ package main
 
 import (
 	"fmt"
+	"os"
 	"go/types"
 	"sort"
 	"strings"
@@ -157,6 +158,12 @@ func (fr *Frame) call(site ssa.Instruction, c *ssa.CallCommon, st *State, reach 
 		vc.CalleesUsed[ce.name] = "pure(assumed)"
 		return fr.freshResults(sig, st, *reach, ce.name, fr.argTerms(c))
 	}
+	// 3b. library package declared libframe
+	if pk := calleePkgPath(ce, c); pk != "" && vc.DB.LibFrame[pk] {
+		vc.CalleesUsed[ce.name] = "libframe(assumed: no effect on module-private state)"
+		vc.havocLib(st)
+		return fr.freshResults(sig, st, *reach, "", nil)
+	}
 	// 4. inline
 	if ce.fn != nil && len(ce.fn.Blocks) > 0 && fr.canInline(ce.fn) {
 		vc.CalleesUsed[ce.name] = "inlined"
@@ -169,6 +176,9 @@ func (fr *Frame) call(site ssa.Instruction, c *ssa.CallCommon, st *State, reach 
 		mods, all := vc.modsOfFunc(ce.fn, fr)
 		if !all {
 			vc.CalleesUsed[ce.name] = "summary(may-modify)"
+			if vc.modSummary(ce.fn, 0).lib {
+				vc.havocLib(st)
+			}
 			for _, m := range mods {
 				if _, ok := vc.hsort[m]; ok {
 					vc.havocVar(st, m)
@@ -520,7 +530,13 @@ func (fr *Frame) applyContract(site ssa.Instruction, k *FuncContract, ce callee,
 		vc.oblige("requires", nm, rq.Src, *reach, g, site.Pos(), rq.Claimed && rq.appliesTo(vc.prop))
 	}
 	// havoc the frame
-	if k.ModAll || !k.HasMod && !k.Flags["pure"] {
+	if k.Flags["libframe"] {
+		vc.havocLib(st)
+		env.cur = pre
+		for _, m := range k.Modifies {
+			env.havocLoc(m, st)
+		}
+	} else if k.ModAll || !k.HasMod && !k.Flags["pure"] {
 		if !k.Flags["pure"] {
 			vc.havocAll(st, *reach)
 		}
@@ -624,6 +640,22 @@ type modSet struct {
 	vars     map[string]bool
 	all      bool
 	escaping bool
+	lib      bool // includes the effect of a libframe call
+}
+
+// calleePkgPath: package of a non-module callee (static function or the named
+// interface type of an invoke-mode call).
+func calleePkgPath(ce callee, c *ssa.CallCommon) string {
+	if c.IsInvoke() {
+		if n, ok := c.Value.Type().(*types.Named); ok && n.Obj().Pkg() != nil && !inModule(n.Obj().Pkg()) {
+			return n.Obj().Pkg().Path()
+		}
+		return ""
+	}
+	if ce.fn != nil && ce.fn.Object() != nil && ce.fn.Object().Pkg() != nil && !inModule(ce.fn.Object().Pkg()) && ce.fn.Parent() == nil {
+		return ce.fn.Object().Pkg().Path()
+	}
+	return ""
 }
 
 var modCache = map[*ssa.Function]*modSet{}
@@ -649,6 +681,13 @@ func (vc *VC) modsOfBlocks(fr *Frame, blocks map[*ssa.BasicBlock]bool) ([]string
 			vc.modsOfInstr(in, ms, 0, fr)
 			if ms.all {
 				return nil, true
+			}
+		}
+	}
+	if ms.lib {
+		for _, v := range sortedKeys(vc.hsort) {
+			if strings.HasPrefix(v, "E!") || strings.HasPrefix(v, "C!") || vc.libVars[v] {
+				ms.vars[v] = true
 			}
 		}
 	}
@@ -842,6 +881,9 @@ func (vc *VC) modsOfCall(x ssa.CallInstruction, ms *modSet, depth int, fr *Frame
 		}
 	}
 	if name == "" {
+		if os.Getenv("GOVC_DEBUG_MODS") != "" {
+			fmt.Fprintf(os.Stderr, "mods: unresolved call %s in %s\n", x, QualName(x.Parent()))
+		}
 		ms.all = true
 		return
 	}
@@ -863,6 +905,13 @@ func (vc *VC) modsOfCall(x ssa.CallInstruction, ms *modSet, depth int, fr *Frame
 		if k.Flags["pure"] {
 			return
 		}
+		if k.Flags["libframe"] {
+			ms.lib = true
+			ms.vars["$alloc"] = true
+			if !k.HasMod {
+				return
+			}
+		}
 		if k.ModAll || !k.HasMod {
 			ms.all = true
 			return
@@ -883,16 +932,27 @@ func (vc *VC) modsOfCall(x ssa.CallInstruction, ms *modSet, depth int, fr *Frame
 	if vc.DB.Pure[name] || (fn != nil && purePkgCall(callee{fn: fn})) {
 		return
 	}
+	if pk := calleePkgPath(callee{fn: fn}, c); pk != "" && vc.DB.LibFrame[pk] {
+		ms.lib = true
+		ms.vars["$alloc"] = true
+		return
+	}
 	if fn != nil && len(fn.Blocks) > 0 {
 		sub := vc.modSummary(fn, depth+1)
 		if sub.all {
 			ms.all = true
 			return
 		}
+		if sub.lib {
+			ms.lib = true
+		}
 		for v := range sub.vars {
 			ms.vars[v] = true
 		}
 		return
+	}
+	if os.Getenv("GOVC_DEBUG_MODS") != "" {
+		fmt.Fprintf(os.Stderr, "mods: no summary for %s (called in %s)\n", name, QualName(x.Parent()))
 	}
 	ms.all = true
 }
